@@ -38,4 +38,19 @@ PROPERTIES = {
              '(ASCII digits; CPython also accepts other Unicode digits); default_scheme is a str; loop termination of for-loops over finite sequences is by construction',
         not_decided=['scraper/util.clean_link_soup and ItemSession.add_url are not under contract yet'],
     ),
+    'C10': dict(
+        modules=['url'], level='proof', bounded=['c10_enum.py'],
+        claim='Lemmas proved on the real url.py for all inputs: (a) charset: PercentEncoderMap maps every byte to itself (printable, not in the encode set) '
+              'or to %HH with upper-case hex digits, percent_encode / percent_encode_plus / normalize_path / normalize_query / user info normalisers '
+              'return printable ASCII without space; (b) flatten_path leaves no "." / ".." segment and (with slash flattening) no empty inner segment; '
+              '(c) reassembly: URLInfo.url is scheme://[user[:password]@]host-or-[ipv6][:port iff non-default]path[?query] over the normalised '
+              'components, pure ASCII without space; scheme is a lower-case key of the port table; host has no delimiter characters; numeric IPv4 '
+              'spellings normalise to a dotted quad. BOUNDED (labelled, not proved): idempotence, component round trip, dot/empty segments after '
+              'encoding, escape case, and IPv4/IDNA spelling equivalence on the real URLInfo.parse by exhaustive short strings per component position.',
+        note='precondition of the bounded clauses: the document encoding is ASCII-transparent and stateless (utf-8, latin-1, shift_jis exercised; utf-16/cp037 '
+             'break the normal form). Assumed library contracts as for C11, plus two library lemmas: concatenation closure (joining pieces that lie in a class R '
+             'gives a string in R*) and the case-mapping re.sub contract of uppercase_percent_encoding (length preserved, classes closed under a-f->A-F kept). '
+             'Four genuine defects found while building this check were repaired (fix: commits).',
+        not_decided=['idempotence / round trip as theorems (they depend on ipaddress, the idna codec and the composition of all lemmas): bounded only'],
+    ),
 }
